@@ -9,7 +9,7 @@ for f in ('patch.diff', 'demo.diff', 'notes.md'):
 c = json.load(open(os.path.join(src, 'confirm.json')))
 notes = open(os.path.join(src, 'notes.md')).read()
 meta = dict(property=prop, seed=k, source='independent sub-agent given only the property text and a scratch worktree',
-            confirmed_by='tools/confirm_seed.py in scratch worktree /tmp/wt-confirm (repo HEAD f839104)',
+            confirmed_by='tools/confirm_seed.py in scratch worktree /tmp/wt-confirm (repo HEAD d71e661)',
             what_i_ran=dict(demo_cmd=c.get('demo_cmd'), suite='cargo test --workspace --no-fail-fast --offline'),
             suite_with_patch=c.get('suite_with_patch'), demo_on_pristine=c.get('demo_pristine'),
             demo_with_patch={k2: v for k2, v in c.get('demo_with_patch', {}).items() if k2 != 'tail'},
